@@ -7,7 +7,9 @@ from harness.core import Violation, HarnessError, run_hypothesis, dec, exc_key, 
 DESCRIPTION = {
     "level": "exploration",
     "rule": ("(a) RawSocket handshake, exhaustive: every value of handshake octets 1-2 (65536) with zero and non-zero reserved octets, for the library server (several serializer "
-             "sets) and the library client (each serializer), on Twisted and asyncio, delivered in 1-4 reads.  (b) WebSocket subprotocols, exhaustive: every ordered subset of "
+             "sets) and the library client (each serializer), on Twisted and asyncio, delivered in 1-4 reads.  (a') handshake octets followed immediately by three WAMP frames as ONE stream from a scripted raw peer: every 1-cut and 2-cut segmentation (RawSocket, both roles), "
+             "every 1-cut plus cuts around the end of the HTTP header (WebSocket, both roles): the session is attached once and receives exactly those messages.  "
+             "(b) WebSocket subprotocols, exhaustive: every ordered subset of "
              "{json,msgpack,cbor,ubjson} on the client side x every subset on the server side (65x65) through the real WebSocket handshake between library client and server.  "
              "(c) Traffic: library client <-> library server (RawSocket and WebSocket) with recording sessions, Hypothesis message sequences whose serialized length is steered to "
              "limit-1/limit/limit+1 of the negotiated maximum (2^9..2^24), all serializers, adversarial segmentation; length prefixes above the locally announced maximum "
